@@ -11,6 +11,7 @@ import (
 	"fmt"
 	"io"
 	"net"
+	"os"
 	"sort"
 	"sync"
 	"time"
@@ -31,6 +32,7 @@ type Link struct {
 	// simulated time before the data leaves (a full socket buffer, a loaded machine).
 	SlowWritePermille int
 	SlowWriteMax      time.Duration
+	SlowWriteSlack    bool // count the stalls as slack (Sim.LateTotal) instead of leaving them to the scenario's own bounds
 }
 
 // Config of the fabric.
@@ -211,18 +213,20 @@ type dgram struct {
 
 // UDPConn is the simulated *net.UDPConn.
 type UDPConn struct {
-	f       *Fabric
-	Label   string
-	host    string
-	local   *net.UDPAddr
-	remote  *net.UDPAddr // non-nil: connected
-	q       []dgram
-	closed  bool
-	readers []*simrt.Task
-	pendErr error // reported once by the next Read or Write (ICMP)
-	groups  []net.IP
-	loop    bool
-	Lib     bool // created by library code
+	f        *Fabric
+	Label    string
+	host     string
+	local    *net.UDPAddr
+	remote   *net.UDPAddr // non-nil: connected
+	q        []dgram
+	closed   bool
+	readers  []*simrt.Task
+	pendErr  error         // reported once by the next Read or Write (ICMP)
+	rcvBytes int           // >0: receive buffer size set by SetReadBuffer
+	rdl      time.Duration // read deadline in simulated time (0 = none)
+	groups   []net.IP
+	loop     bool
+	Lib      bool // created by library code
 	// LastRef is the wire-log sequence number of the send that produced the datagram returned
 	// by the most recent read (harness actors use it to recognise stale copies).
 	LastRef uint64
@@ -309,11 +313,72 @@ func (c *UDPConn) RemoteAddr() net.Addr {
 	}
 	return c.remote
 }
-func (c *UDPConn) SetDeadline(time.Time) error      { return nil }
-func (c *UDPConn) SetReadDeadline(time.Time) error  { return nil }
+func (c *UDPConn) SetDeadline(t time.Time) error { return c.SetReadDeadline(t) }
+
+// SetReadDeadline: a read that has not completed by t fails with a timeout error (writes never
+// block in this fabric, so write deadlines have nothing to do).
+func (c *UDPConn) SetReadDeadline(t time.Time) error {
+	c.f.mu.Lock()
+	c.rdl = deadlineOf(t)
+	rs := c.readers
+	c.readers = nil
+	c.f.mu.Unlock()
+	for _, r := range rs {
+		c.f.s.Unblock(r) // blocked readers look at the new deadline
+	}
+	return nil
+}
+
+// Further methods of *net.UDPConn that a refactoring might reach for.
+func (c *UDPConn) ReadMsgUDP(b, oob []byte) (n, oobn, flags int, addr *net.UDPAddr, err error) {
+	n, addr, err = c.read(b)
+	return
+}
+func (c *UDPConn) WriteMsgUDP(b, oob []byte, addr *net.UDPAddr) (n, oobn int, err error) {
+	if addr == nil {
+		n, err = c.Write(b)
+	} else {
+		n, err = c.WriteToUDP(b, addr)
+	}
+	return
+}
+
+// deadlineOf turns a deadline into simulated time (0 = none; a deadline in the past becomes 1 ns).
+func deadlineOf(t time.Time) time.Duration {
+	if t.IsZero() {
+		return 0
+	}
+	d := simrt.SimOffset(t)
+	if d <= 0 {
+		d = 1
+	}
+	return d
+}
+
+type timeoutError struct{}
+
+func (timeoutError) Error() string   { return "i/o timeout" }
+func (timeoutError) Timeout() bool   { return true }
+func (timeoutError) Temporary() bool { return true }
+func (timeoutError) Is(err error) bool {
+	return err == os.ErrDeadlineExceeded
+}
 func (c *UDPConn) SetWriteDeadline(time.Time) error { return nil }
-func (c *UDPConn) SetReadBuffer(int) error          { return nil }
-func (c *UDPConn) SetWriteBuffer(int) error         { return nil }
+
+// SetReadBuffer limits the receive queue the way a kernel does: the requested size is doubled, not
+// less than 2304 octets, and every queued datagram is charged its length plus bookkeeping overhead;
+// a datagram that does not fit is dropped ("overflow"). Without a call the fabric's default
+// (Config.RcvBuf datagrams) applies.
+func (c *UDPConn) SetReadBuffer(n int) error {
+	c.f.mu.Lock()
+	c.rcvBytes = 2 * n
+	if c.rcvBytes < 2304 {
+		c.rcvBytes = 2304
+	}
+	c.f.mu.Unlock()
+	return nil
+}
+func (c *UDPConn) SetWriteBuffer(int) error { return nil }
 
 // srcAddr is the address peers see as the origin of this socket's datagrams.
 func (c *UDPConn) srcAddr() *net.UDPAddr {
@@ -391,6 +456,21 @@ func (c *UDPConn) read(b []byte) (int, *net.UDPAddr, error) {
 			f.mu.Unlock()
 			return 0, nil, opErr("read", c, errClosed)
 		}
+		if c.rdl > 0 {
+			if s.Now() >= c.rdl {
+				f.mu.Unlock()
+				return 0, nil, opErr("read", c, timeoutError{})
+			}
+			s.At(c.rdl-s.Now(), "read-deadline "+c.Label, func() {
+				f.mu.Lock()
+				rs := c.readers
+				c.readers = nil
+				f.mu.Unlock()
+				for _, r := range rs {
+					s.Unblock(r)
+				}
+			})
+		}
 		c.readers = append(c.readers, t)
 		f.mu.Unlock()
 		s.Block(t, "udpread")
@@ -467,6 +547,9 @@ func (c *UDPConn) send(b []byte, dst *net.UDPAddr) (int, error) {
 	if l.SlowWritePermille > 0 && l.SlowWriteMax > 0 && f.s.CurrentID() >= 0 && f.s.Dec.Chance("net.slowwrite", l.SlowWritePermille) {
 		d := time.Duration(1+f.s.Dec.Choose("net.slowwriteamt", 16)) * l.SlowWriteMax / 16
 		f.fired("slow-write")
+		if l.SlowWriteSlack {
+			f.s.AddSlack(d)
+		}
 		f.s.SleepFor(d)
 	}
 	if l.WriteErrPermille > 0 && f.s.Dec.Chance("net.werr", l.WriteErrPermille) {
@@ -580,11 +663,26 @@ func (f *Fabric) deliver(from *UDPConn, ref uint64, cp int, src, dst *net.UDPAdd
 			continue
 		}
 		f.mu.Lock()
-		if len(c.q) >= f.cfg.RcvBuf {
+		full := len(c.q) >= f.cfg.RcvBuf
+		small := false
+		if c.rcvBytes > 0 && !full {
+			used := 0
+			for _, d := range c.q {
+				used += len(d.data) + 512
+			}
+			small = used+len(data)+512 > c.rcvBytes
+			full = small
+		}
+		if full {
 			f.mu.Unlock()
 			f.fired("rcvbuf-overflow")
 			r.Kind = "overflow"
 			r.Data = nil
+			if small {
+				// lost to a receive buffer the application itself asked to be this small: the
+				// datagram stays in the record, an oracle may hold the application to it
+				r.Data, r.Err = data, "SetReadBuffer"
+			}
 			f.rec(r)
 			continue
 		}
@@ -719,6 +817,7 @@ type TCPConn struct {
 	rxErr    error
 	closed   bool
 	readers  []*simrt.Task
+	rdl      time.Duration // read deadline in simulated time (0 = none)
 	lastArr  time.Duration // arrival time of the last scheduled segment towards the peer (keeps order)
 	inFlight [][]byte      // segments (nil = FIN) on their way to the peer, in stream order
 	Lib      bool
@@ -762,10 +861,22 @@ func DialTCP(network string, laddr, raddr *net.TCPAddr) (*TCPConn, error) {
 	return a, nil
 }
 
-func (c *TCPConn) LocalAddr() net.Addr              { return c.local }
-func (c *TCPConn) RemoteAddr() net.Addr             { return c.remote }
-func (c *TCPConn) SetDeadline(time.Time) error      { return nil }
-func (c *TCPConn) SetReadDeadline(time.Time) error  { return nil }
+func (c *TCPConn) LocalAddr() net.Addr                          { return c.local }
+func (c *TCPConn) RemoteAddr() net.Addr                         { return c.remote }
+func (c *TCPConn) SetReadBuffer(int) error                      { return nil }
+func (c *TCPConn) SetWriteBuffer(int) error                     { return nil }
+func (c *TCPConn) SetLinger(int) error                          { return nil }
+func (c *TCPConn) SetKeepAlivePeriod(time.Duration) error       { return nil }
+func (c *TCPConn) SetKeepAliveConfig(net.KeepAliveConfig) error { return nil }
+func (c *TCPConn) CloseRead() error                             { return nil }
+func (c *TCPConn) SetDeadline(t time.Time) error                { return c.SetReadDeadline(t) }
+func (c *TCPConn) SetReadDeadline(t time.Time) error {
+	c.f.mu.Lock()
+	c.rdl = deadlineOf(t)
+	c.wakeReaders()
+	c.f.mu.Unlock()
+	return nil
+}
 func (c *TCPConn) SetWriteDeadline(time.Time) error { return nil }
 func (c *TCPConn) SetNoDelay(bool) error            { return nil }
 func (c *TCPConn) SetKeepAlive(bool) error          { return nil }
@@ -820,6 +931,17 @@ func (c *TCPConn) Read(b []byte) (int, error) {
 		if t == nil {
 			f.mu.Unlock()
 			return 0, tcpErr("read", c, errClosed)
+		}
+		if c.rdl > 0 {
+			if f.s.Now() >= c.rdl {
+				f.mu.Unlock()
+				return 0, tcpErr("read", c, timeoutError{})
+			}
+			f.s.At(c.rdl-f.s.Now(), "read-deadline "+c.Label, func() {
+				f.mu.Lock()
+				c.wakeReaders()
+				f.mu.Unlock()
+			})
 		}
 		c.readers = append(c.readers, t)
 		f.mu.Unlock()
